@@ -106,6 +106,7 @@ Hypothesis H2 : d2 < 0.
 Let ND := pram_fatigue_life_limit Z D d1 d2.
 Let calcN := pram_calc_N Z D d1 d2.
 Let calcP := pram_calc_P_RAM Z D d1 d2.
+Set Default Proof Using "HD HZ H1 H2".
 
 Lemma pram_ND_eq : ND = 1000 * Rpower (D / Z) (1 / d2).
 Proof.
@@ -320,6 +321,7 @@ Proof.
   - apply pram_calcP_high. lra.
 Qed.
 End PRAM.
+Unset Default Proof Using.
 
 (* ================================================================ P_RAJ curve *)
 Section PRAJ.
@@ -331,6 +333,7 @@ Hypothesis Hd : d < 0.
 Let ND := praj_fatigue_life_limit Z D d.
 Let calcN := praj_calc_N Z D d.
 Let calcP := praj_calc_P_RAJ Z D d.
+Set Default Proof Using "HD HZ Hd".
 
 Lemma praj_q : 0 < D / Z < 1.
 Proof. split; [apply Rdiv_lt_0_compat; lra|]. apply Rmult_lt_reg_r with Z; [lra|]. unfold Rdiv. rewrite Rmult_assoc, Rinv_l; lra. Qed.
@@ -446,6 +449,7 @@ Proof. reflexivity. Qed.
 Lemma prajx_calc_N_default P : prajx_calc_N Z D d P D = calcN P.
 Proof. reflexivity. Qed.
 End PRAJ.
+Unset Default Proof Using.
 
 (* the hypotheses are satisfiable (guideline example 2.7.1 rounded) *)
 Example pram_hypotheses_satisfiable : 0 < 150 /\ 150 < 437 /\ -302/1000 < 0 /\ -197/1000 < 0.
